@@ -127,7 +127,6 @@ func genLife(t *rapid.T) *Scenario {
 	}
 	sc.Targets = rapid.SampledFrom([]int{2, 2, 3, 5, 9, 17, 33, 40}).Draw(t, "ntargets")
 	targets := lifeTargets(sc.Targets)
-	nops := rapid.IntRange(0, 7).Draw(t, "nops50")*50 + rapid.IntRange(1, 50).Draw(t, "nops")
 	// what the life mostly consists of
 	weights := rapid.SampledFrom([][]string{
 		{"r", "r", "r", "r", "n", "n", "n", "l", "l", "p"},
@@ -135,7 +134,12 @@ func genLife(t *rapid.T) *Scenario {
 		{"n", "n", "n", "n", "n", "n", "n", "n", "r", "l", "p"},
 	}).Draw(t, "profile")
 	ts := int64(1_000_000)
-	for i := 0; i < nops; i++ {
+	made := 0
+	opGen := rapid.Custom(func(t *rapid.T) LifeOp {
+		if made++; made > 400 {
+			rapid.Bool().Draw(t, "beyond") // a generator has to draw
+			return LifeOp{}                // beyond the cap: dropped below
+		}
 		// sizes: most steps are small, one in sixteen has one large dimension
 		bigDims = nil
 		if rapid.IntRange(0, 15).Draw(t, "bigstep") == 15 {
@@ -178,7 +182,17 @@ func genLife(t *rapid.T) *Scenario {
 			op.Target = rapid.IntRange(0, len(targets)-1).Draw(t, "ptarget")
 			op.Peer = rapid.IntRange(0, 63).Draw(t, "peer")
 		}
-		sc.Ops = append(sc.Ops, op)
+		return op
+	})
+	// 1..400 steps, as nested slices (acts of scenes of steps): the length has a long tail
+	// and the shrinker can drop whole acts, scenes and single steps
+	for _, act := range rapid.SliceOfN(rapid.SliceOfN(rapid.SliceOfN(opGen, 1, 16), 1, 16), 1, 16).Draw(t, "ops") {
+		for _, scene := range act {
+			sc.Ops = append(sc.Ops, scene...)
+		}
+	}
+	if len(sc.Ops) > 400 {
+		sc.Ops = sc.Ops[:400]
 	}
 	bigDims = nil
 	return sc
